@@ -53,17 +53,27 @@ static void emit(const char* oracle, const char* refutes, const char* detail) {
   fflush(f);
 }
 
+/* coverage builds (VERIF_COV=1, tools/coverage.py) leave through _exit: write the counters first */
+#ifdef VF_COV
+extern void __gcov_dump(void);
+#define VF_COV_DUMP() __gcov_dump()
+#else
+#define VF_COV_DUMP() ((void)0)
+#endif
+
 void vf_trip(const char* oracle, const char* refutes, const char* fmt, ...) {
   char buf[1024];
   va_list ap; va_start(ap, fmt); vsnprintf(buf, sizeof(buf), fmt, ap); va_end(ap);
   fflush(stderr);
   emit(oracle, refutes, buf);
+  VF_COV_DUMP();
   _exit(10);
 }
 
 void vf_finish_ok(void) {
   emit(NULL, NULL, NULL);
   fflush(stderr);
+  VF_COV_DUMP();
   _exit(0);
 }
 
